@@ -27,6 +27,12 @@ type thread struct {
 	failure interface{} // panic value that ended the thread abnormally
 	daemon  bool
 	lastOp  string
+	steps   int  // resumes of this thread
+	// spin-wait bookkeeping: a thread that waits twice in a row without any other thread having
+	// stepped in between is blocked until another thread steps
+	waitOthers     int
+	prevWaitOthers int
+	prevWaitValid  bool
 }
 
 type threadState struct {
@@ -35,6 +41,7 @@ type threadState struct {
 	backCh   chan struct{} // thread -> scheduler: "I yielded / finished"
 	running  bool
 	switches int
+	totalSteps int
 	schedule []string
 	mainFrame *Frame
 	mainDepth int
@@ -65,6 +72,11 @@ func (ts *threadState) yieldPoint(ex *Exec, what string, wait bool) {
 		return // main harness code outside vrunThreads: sequential
 	}
 	t.waiting = wait
+	if wait {
+		t.waitOthers = ts.totalSteps - t.steps
+	} else {
+		t.prevWaitValid = false
+	}
 	t.lastOp = what
 	t.frame, t.depth = ex.frame, ex.depth
 	ts.backCh <- struct{}{}
@@ -85,7 +97,7 @@ func (ts *threadState) run(ex *Exec) {
 	}()
 	var last *thread
 	for {
-		var runnable []*thread
+		var runnable, spinners []*thread
 		alive := 0
 		for _, t := range ts.threads {
 			if t.done {
@@ -94,10 +106,17 @@ func (ts *threadState) run(ex *Exec) {
 			if !t.daemon {
 				alive++
 			}
-			if t.waiting && (last == nil || last == t) {
+			if t.waiting && t.waitOthers == ts.totalSteps-t.steps {
+				// spinning (runtime.Gosched / blocked lock): not scheduled again until another thread has stepped
+				if !(t.prevWaitValid && t.prevWaitOthers == t.waitOthers) {
+					spinners = append(spinners, t) // may retry once if nobody else can run
+				}
 				continue
 			}
 			runnable = append(runnable, t)
+		}
+		if len(runnable) == 0 {
+			runnable = spinners
 		}
 		if alive == 0 {
 			ts.killAll()
@@ -129,7 +148,12 @@ func (ts *threadState) run(ex *Exec) {
 			ts.switches++
 		}
 		ts.cur = pick
+		if pick.waiting {
+			pick.prevWaitOthers, pick.prevWaitValid = pick.waitOthers, true
+		}
 		pick.waiting = false
+		pick.steps++
+		ts.totalSteps++
 		ts.resumeThread(ex, pick)
 		last = pick
 		if pick.failure != nil {
